@@ -8,3 +8,5 @@ import XProofs.Properties.C18
 #print axioms Properties.C18.C18_recover_exec
 #print axioms Properties.C18.C18_recover_function_tasks
 #print axioms Properties.C18.C18_writes_only_triggered_targets
+#print axioms Properties.C18.C18_recover_after_several_faults
+#print axioms Properties.C18.C18_recover_after_several_faults_expr
